@@ -189,6 +189,8 @@ class AffBuilder:
             r = self.resolve(e)
             if r is not None:
                 return r
+        if isinstance(e, ast.NamedExpr):          # (x := e) has the value of e
+            return self._b(e.value)
         if isinstance(e, ast.Constant):
             if isinstance(e.value, bool) or not isinstance(e.value, int):
                 raise Unsupported(f"non-integer constant {e.value!r}")
